@@ -35,6 +35,10 @@ CONTEXTS = {
          [("Select", "lambda e: e.jets().Where(lambda e: e.m() > 0).Count() + e.m({A})")]),
     12: ("two typed call sites in one lambda, the other one on another class with the same method name", "evt",
          [("Select", "lambda e: {'a': e.jets().First().m(), 'b': e.m({A})}")]),
+    13: ("the call site is itself an argument of another typed call that gets a default", "evt",
+         [("Select", "lambda e: e.wrap(e.m({A}))")]),
+    14: ("inside a conditional and a comparison chain in a Where of a nested collection", "jet",
+         [("Select", "lambda e: e.jets().Where(lambda j: (j.m({A}) if j.m({A}) > 0 else 0) > 1).Count()")]),
 }
 
 _universes = {}
@@ -82,6 +86,7 @@ class Jet:
 
 class Evt:
     def m({msig('evt')}) -> int: ...
+    def wrap(self, v: int, w: int = 77) -> int: ...
     def jets(self) -> Iterable[Jet]: ...
 
 @func_adl_callable()
@@ -139,7 +144,8 @@ def run_case(cid, case):
         for op, lam in steps:
             text = lam.replace("{A}", A).replace("{F}", fname)
             rec["source"] += f".{op}({text})"
-            s = getattr(s, op)(text)
+            # lambdas are supplied alternately as source text and as an ast object
+            s = getattr(s, op)(text if cid % 2 == 0 else ast.parse(text).body[0].value)
         rec["out"] = codec.enc(s.query_ast.args[1])
         rec["item_type"] = str(s.item_type)
     except Exception as e:
